@@ -23,7 +23,8 @@ class Binding:
 
 
 class ExprDoc:
-    def __init__(self, rng, n_targets=3, types=None, hostile_strings=False, max_depth=4, kinds=None, profile="dynamic"):
+    def __init__(self, rng, n_targets=3, types=None, hostile_strings=False, max_depth=4, kinds=None, profile="dynamic",
+                 void_path_hazard=False):
         self.rng = rng
         self.objects = [ge.ObjSpec(i, c) for i, c in SOURCES]
         self.targets = ["t%d" % k for k in range(n_targets)]
@@ -33,11 +34,14 @@ class ExprDoc:
         for tg in self.targets:
             env = ge.Env(self.objects, owner=ge.ObjSpec(tg, "VfWidget"), owner_free=OWNER_FREE)
             g = ge.Gen(rng, env, profile=profile, max_depth=max_depth, hostile_strings=hostile_strings, features=self.features)
+            g.void_path_hazard = void_path_hazard
             for t in types:
                 kind = rng.choice(kinds) if kinds else None
+                g.has_void_path = False
                 prog = g.program(t, kind)
                 src = ge.print_program(prog, rng)
                 self.bindings.append(Binding(tg, ge.TARGET_PROP[t], t, prog, src))
+                self.bindings[-1].ill_typed = g.has_void_path
         self.source = self.to_qml()
 
     def to_qml(self, skip=()):
